@@ -32,7 +32,8 @@ def check_cycle(tag, r, start, loops, border, eid, bset):
     """r = driver result of extract_border_cycle(start); start None = default.
     What the text fixes: a border start must be answered by a closed walk along border edges visiting every border
     vertex of the loop of the start once.  Left free: how a start that is not a border vertex / a mesh without border
-    is treated (any refusal, whatever its class and message, or an empty answer, or a correct walk of some loop), at which
+    is treated (any refusal, whatever its class and message, or an empty answer - but not the walk of a loop the start is
+    not on), at which
     vertex of the loop and in which direction the walk begins, how the edge list is aligned with the vertex list."""
     out = []
     legit_refusal = (not bset) or (start is not None and start not in bset)
@@ -41,11 +42,11 @@ def check_cycle(tag, r, start, loops, border, eid, bset):
             return out
         if r[0] == "ok" and not r[1] and not r[2]:
             return out
-        if r[0] != "ok" or not bset:
-            out.append(("cycle/not-on-border", "%s: start %s is not a border vertex, answered neither a refusal nor a border walk: %s"
-                        % (tag, start, r[:3])))
-            return out
-        start = None            # an answer was given although none was due: it must then be a correct walk of some loop
+        # a walk was returned for a start that lies on no border loop: the cycle of a starting point is the loop THROUGH
+        # that point, so whatever loop is walked it is not the answer for this start
+        out.append(("cycle/not-on-border", "%s: start %s lies on no border loop, yet a walk was returned: %s"
+                    % (tag, start, r[:3])))
+        return out
     if r[0] != "ok":
         out.append(("cycle/fails", "%s: border start %s answered %s" % (tag, start, r[:3])))
         return out
@@ -224,11 +225,17 @@ def check_features(case, obs):
     ses = case.get("session")
     if ses and obs.get("session"):
         so = obs["session"]
-        for on, mcase, t in ((0, case, obs["tables"]), (1, ses.get("other"), so.get("other_tables"))):
-            pairs = [(k, st, d) for k, (st, d) in enumerate(zip(ses["steps"], so["steps"])) if st["on"] == on]
+        moved_case = dict(case, coords=ses["alt_coords"]) if ses.get("alt_coords") else None
+        groups = ((0, False, case, obs["tables"]), (0, True, moved_case, obs["tables"]),
+                  (1, False, ses.get("other"), so.get("other_tables")))
+        for on, mv, mcase, t in groups:
+            pairs = [(k, st, d) for k, (st, d) in enumerate(zip(ses["steps"], so["steps"]))
+                     if st["on"] == on and bool(st.get("moved")) == mv]
             if pairs and mcase is not None:
-                out += check_runs(mcase, t, [p[1] for p in pairs], [p[2] for p in pairs],
-                                  "reused-", ["run %d of ONE detector object (steps on meshes %s) " % (p[0] + 1, [x["on"] for x in ses["steps"]]) for p in pairs])
+                out += check_runs(mcase, t, [p[1] for p in pairs], [p[2] for p in pairs], "reused-",
+                                  ["run %d of ONE detector object (steps on meshes %s%s) "
+                                   % (p[0] + 1, [x["on"] for x in ses["steps"]], ", vertices moved before this run" if mv else "")
+                                   for p in pairs])
     return out
 
 
